@@ -155,6 +155,7 @@ func checkC09(c *Ctx, r *Report) {
 	// ---- C09.e generated identifiers: every use has a declaration with the same spelling
 	checkGeneratedIdentifiers(c, r)
 	checkDeclaredWhereCalled(c, r, "C09.e")
+	checkTypeSwitchArms(c, r, "C09.e")
 	checkConversionArms(c, r, "C09.e")
 	// the Go type the templates spell for a parameter or result is the declared type's own string
 	// (a synthesized model name - `PageItem` for `Page[Item]` - is not a Go type of the user's package)
